@@ -13,8 +13,9 @@ import (
 // children are - a block without (non-ignored) children is still a block. In every function of the accumulator that
 // invokes the user callback with a parent taken from one of its pointer parameters, each path that returns without
 // invoking the callback passes a test establishing that the parent is nil.
-func c15ParentAlwaysDelivered(r *core.Report) {
-	const rule = "C15.R7"
+func c15ParentAlwaysDelivered(r *core.Report) { parentAlwaysDelivered(r, "C15.R7") }
+
+func parentAlwaysDelivered(r *core.Report, rule string) {
 	p := r.Prog
 	run := r.Anchor(rule, "accum.(*ObjectAccumulator).Run")
 	if run == nil {
@@ -28,36 +29,37 @@ func c15ParentAlwaysDelivered(r *core.Report) {
 		info := f.Pkg.TypesInfo
 		g := p.Graph(f)
 		calls := map[*core.GNode]bool{}
-		var parent types.Object
+		parentText := ""
+		var start *core.GNode // where the group comes into being: the entry for a parameter, the receive for a queued group
+		var base types.Object
 		for _, nd := range stmtNodes(g) {
 			for _, c := range nodeCalls(nd) {
-				sel, ok := core.Unparen(c.Fun).(*ast.SelectorExpr)
-				if !ok || len(c.Args) < 1 {
+				if !isAccumulatorCallback(info, c) || len(c.Args) < 1 {
 					continue
 				}
-				fld, isVar := info.Uses[sel.Sel].(*types.Var)
-				if !isVar || !fld.IsField() {
+				a0 := core.Unparen(c.Args[0])
+				if t := info.TypeOf(a0); t == nil {
+					continue
+				} else if _, isPtr := t.Underlying().(*types.Pointer); !isPtr {
 					continue
 				}
-				if _, isSig := fld.Type().Underlying().(*types.Signature); !isSig {
+				if o := core.ObjOf(info, a0); o != nil && isParamOf(f, o) {
+					calls[nd] = true
+					parentText, start = core.ExprStr(a0), g.Entry
 					continue
 				}
-				// the field belongs to the accumulator (the receiver type of Run)
-				if rt := info.TypeOf(sel.X); rt == nil || !strings.HasSuffix(strings.TrimPrefix(rt.String(), "*"), "ObjectAccumulator") {
-					continue
+				// a field of a group taken from a queue in this function: `fb := <-q; ... cb(fb.parent, ...)`
+				if sel, ok := a0.(*ast.SelectorExpr); ok {
+					if bo := core.ObjOf(info, sel.X); bo != nil {
+						if at, taken := queueTake(g, f, ""); at != nil && taken == bo {
+							calls[nd] = true
+							parentText, start, base = core.ExprStr(a0), at, bo
+						}
+					}
 				}
-				o := core.ObjOf(info, c.Args[0])
-				if o == nil || !isParamOf(f, o) {
-					continue
-				}
-				if _, isPtr := o.Type().Underlying().(*types.Pointer); !isPtr {
-					continue
-				}
-				calls[nd] = true
-				parent = o
 			}
 		}
-		if len(calls) == 0 || parent == nil {
+		if len(calls) == 0 || parentText == "" || start == nil {
 			continue
 		}
 		n++
@@ -67,14 +69,21 @@ func c15ParentAlwaysDelivered(r *core.Report) {
 				continue
 			}
 			for _, fc := range e.Facts() {
-				if x, eq, isNil := core.NilCompare(info, fc.Expr); isNil && fc.Tag == nil && fc.Unless == nil && core.ObjOf(info, x) == parent && eq == fc.Truth {
-					nilEdge[e] = true
+				if x, eq, isNil := core.NilCompare(info, fc.Expr); isNil && fc.Tag == nil && fc.Unless == nil && eq == fc.Truth {
+					// no parent - or no group at all (the queue was closed / a nil group was sent)
+					if core.ExprStr(x) == parentText || (base != nil && core.ObjOf(info, x) == base) {
+						nilEdge[e] = true
+					}
 				}
 			}
 		}
-		path := g.PathAvoiding(g.Entry, func(x *core.GNode) bool { return x == g.Exit }, func(x *core.GNode) bool { return calls[x] || nilEdge[x] })
+		avoid := func(x *core.GNode) bool { return calls[x] || nilEdge[x] }
+		path := g.PathAvoiding(start, func(x *core.GNode) bool { return x == g.Exit }, avoid)
+		if path == nil && start != g.Entry && cycleAvoiding(g, start, avoid) {
+			path = []*core.GNode{start} // the next group is taken without this one having been delivered
+		}
 		r.Check(path == nil, rule, fmt.Sprintf("%s#parent-reaches-callback", f.Key), posP(r, f.Pos()), "the callback is skipped only when the group has no parent",
-			"a group whose parent ("+parent.Name()+") is present can be dropped without reaching the callback (e.g. a block with no non-ignored children): that block is never delivered", g.PathStrings(path)...)
+			"a group whose parent ("+parentText+") is present can be dropped without reaching the callback (e.g. a block with no non-ignored children): that block is never delivered", g.PathStrings(path)...)
 	}
 	if n == 0 {
 		r.Undecided(rule, run.Key+"#callback-site", posP(r, run.Pos()), "no invocation of the accumulator's callback with a parent parameter found")
